@@ -359,7 +359,20 @@ func c07BuildKey(b *c07Built, w *c07WF, rr *Rand, sh c07Shift, cat *c07Catalogue
 }
 
 func c07BuildValue(b *c07Built, w *c07WF, rr *Rand, sh c07Shift, cat *c07Catalogue, wantFlow *bool) {
-	site := &cat.valSites[rr.Intn(len(cat.valSites))]
+	pick := rr.Intn(1 << 20)
+	site := &cat.valSites[pick%len(cat.valSites)]
+	if (pick>>12)%6 == 0 {
+		// a fixed share for the labels that are reached through the matrix
+		var ind []*c07ValSite
+		for i := range cat.valSites {
+			if cat.valSites[i].kind == "runner-label-via-matrix" {
+				ind = append(ind, &cat.valSites[i])
+			}
+		}
+		if len(ind) > 0 {
+			site = ind[(pick>>4)%len(ind)]
+		}
+	}
 	v, msgs, opt := site.build(w, rr)
 	b.target = v
 	b.site = "value"
